@@ -460,7 +460,11 @@ class C02(Property):
             "cartesian) and non-well-formed streams (tag + own descendant on a port, duplicate tags, mixed depths); plus, exhaustively, every 2-port stream with <= 2 tokens per port over the tags 0, 0.0, 0.1, 0.0.0 (121 streams). Every stream is fed "
             "to the REAL combinator in all permutations when <= 6 tokens (else a sample): the emitted multiset must equal the spec and "
             "be the same for every order (monitor); the emission *sequence* of a subset of the orders is compared with the Lean "
-            "loop-faithful model (driver). Non-trivial = distinct (shape, stream) with at least one emission.")
+            "loop-faithful model (driver). Nested shapes include two inner combinators in one outer dot product and an inner cartesian "
+            "product of depth 2 (order-dependence monitor only). Step level: the stream through a real CombinatorStep (ports, persistence, "
+            "controlled interleaving) with the arrival order seen by combine() recorded; output-port logs + final status compared with the "
+            "Lean step model on that order; termination tokens, delivery order, provenance rows and input_ids monitored. "
+            "Non-trivial = distinct (shape, stream) with at least one emission.")
     trusted_base = [
         "translators harness/sfv/translate/tagguards.py (get_tag comparison) and combguards.py (emission guard, pop side, _is_parent_tag, "
         "cartesian key/suffix slices -> SFV/Gen/CombGuards.lean)",
